@@ -131,11 +131,15 @@ class Eval:
         if 'cidx' in pr:
             if isinstance(v, tuple) and v[0] == 'tblarr':
                 return ('tbl', v[1], pr['cidx'])
+            if isinstance(v, tuple) and v[0] == 'tuple' and pr['cidx'] < len(v[1]):
+                return v[1][pr['cidx']]        # element of an array aggregate
             return ('index', v, pr['cidx'])
         if 'idx' in pr:
             iv = env.get(pr['idx'])
             if isinstance(v, tuple) and v[0] == 'tblarr' and isinstance(iv, tuple) and iv[0] == 'const':
                 return ('tbl', v[1], iv[1])
+            if isinstance(v, tuple) and v[0] == 'tuple' and isinstance(iv, tuple) and iv[0] == 'const' and iv[1] < len(v[1]):
+                return v[1][iv[1]]
             if isinstance(v, tuple) and v[0] == 'selffield':
                 return ('lut',)
             return ('index', v, iv)
